@@ -275,8 +275,13 @@ func vrfH_C20self() {
 			kinds /= 5
 			targets /= n
 		}
-		ref.Ref = spec.MustCreateRef("#/definitions/d" + itoaSmall(targets%n))
-		switch kinds % 5 {
+		kind, target := kinds%5, targets%n
+		if vrfParam("symbolic", 0) != 0 {
+			// kinds and targets chosen by the solver
+			kind, target = vrfInt(tag+".kind", 0, 4), vrfInt(tag+".target", 0, n-1)
+		}
+		ref.Ref = spec.MustCreateRef("#/definitions/d" + itoaSmall(target))
+		switch kind {
 		case 0: // plain string
 			s.Type = spec.StringOrArray{"string"}
 		case 1: // object with a property referring to a definition
@@ -300,6 +305,19 @@ func vrfH_C20self() {
 	a, err := Schema(SchemaOpts{Schema: &d0, Root: root, BasePath: "/x/root.json"})
 	if err == nil {
 		c20Coherent("recursive", a)
+	}
+	if vrfParam("noerror", 0) != 0 {
+		// every $ref resolves inside the root, and d0 does not lie on a cycle of pure $refs: classification succeeds,
+		// and a d0 that is only a $ref classifies exactly like its target analyzed in place
+		vrfAssert("recursive: no-error-on-resolvable-definitions", err == nil)
+		if err == nil && d0.Ref.String() != "" {
+			tgt := root.Definitions["d"+itoaSmall(vrfParam("targets", 0)%n)]
+			b, err2 := Schema(SchemaOpts{Schema: &tgt, Root: root, BasePath: "/x/root.json"})
+			vrfAssert("recursive: target-classifies", err2 == nil)
+			if err2 == nil {
+				vrfAssert("recursive: ref-transparency", c20Flags(a) == c20Flags(b))
+			}
+		}
 	}
 	vrfCover("terminates", true)
 }
